@@ -59,7 +59,8 @@ func sha(s string) string {
 func genConc(out *bufio.Writer, rng *rand.Rand, rounds int) int {
 	corpus := corpusFiles()
 	var jobs []concJob
-	var constWant []string // expected results known by construction, for jobs constIdx
+	manyRepeats := map[int]bool{} // text indices whose jobs are repeated 60 times instead of 15
+	var constWant []string        // expected results known by construction, for jobs constIdx
 	var constIdx []int
 	// assemble jobs: shared configuration values, texts that exercise EQU maps and FOR expansion
 	cfgs := []gmars.SimulatorConfig{gmars.ConfigNOP94, gmars.ConfigKOTH88, gmars.ConfigNopNano}
@@ -126,6 +127,22 @@ func genConc(out *bufio.Writer, rng *rand.Rand, rounds int) int {
 			fmt.Fprintf(&sb, "i for %s-%s+1\nmov i, %s\nrof\n", uses[0], uses[0], uses[1])
 		}
 		texts = append(texts, []byte(sb.String()))
+	}
+	// the same family, spelled out: a NON-leaf base of many tokens and several EQUs that begin with it
+	for _, base := range []string{"zz*zz+zz", "zz+zz+zz+zz", "zz*2+zz*3+zz"} {
+		for _, k := range []int{2, 3, 4} {
+			var sb strings.Builder
+			fmt.Fprintf(&sb, "zz equ 1+2+3+4\nbase equ %s\n", base)
+			for j := 0; j < k; j++ {
+				fmt.Fprintf(&sb, "v%d equ base+%d\n", j, j+1)
+			}
+			for j := 0; j+1 < k; j++ {
+				fmt.Fprintf(&sb, "dat #v%d, #v%d\n", j, j+1)
+			}
+			fmt.Fprintf(&sb, "dat #v%d, #v0\n", k-1)
+			texts = append(texts, []byte(sb.String()))
+			manyRepeats[len(texts)-1] = true
+		}
 	}
 	for i, t := range texts {
 		t, cfg := t, cfgs[i%len(cfgs)]
@@ -232,7 +249,15 @@ func genConc(out *bufio.Writer, rng *rand.Rand, rounds int) int {
 	// repeatability (Go map iteration order differs from run to run)
 	for i, j := range jobs {
 		same := seq[i]
-		for k := 0; k < 14; k++ {
+		reps := 14
+		if strings.HasPrefix(j.desc, "asm") {
+			var ti int
+			fmt.Sscanf(j.desc, "asm%d", &ti)
+			if manyRepeats[ti] {
+				reps = 60
+			}
+		}
+		for k := 0; k < reps; k++ {
 			if r := j.run(); r != seq[i] {
 				same = r
 				break
